@@ -130,8 +130,11 @@ def run(ctx, chk):
         inner = g
         conv_ok = True
         conv_desc = []
-        while inner[0] == 't' and inner[1] in ('cast', 'ceil'):
-            if inner[1] == 'cast':
+        while inner[0] == 't' and inner[1] in ('cast', 'ceil', 'conv'):
+            if inner[1] == 'conv':
+                # a lossless From/Into widening: what it widens may itself be a narrowing cast (N1: `i64::from(x as u32)`)
+                conv_desc.append('from')
+            elif inner[1] == 'cast':
                 ck, ty = inner[2][1], inner[2][2]
                 conv_desc.append('%s->%s' % (ck, ty))
                 if ck == 'FloatToInt' and ty not in ('i64', 'i128'):
